@@ -802,8 +802,8 @@ def write_evidence(prop, tier, seed, st, res, t_start, violations, known, n_oras
             "translator translate/avt2coq.py (validated by the exhaustive parser sweep and the step-wise correspondence)",
             "extraction: ExtrOcamlBasic only, no Extract Constant; OCaml 4.13",
             "correspondence harness (Rust) + cfg(avt_verif) state export hook + OCaml state parser",
-            "regenerated from the source on every run and tied by PROOF (Gen/*.v + Proofs/ParserTable, DispatchTable, TermTie, TermTieW, TermTieX, BufTie, SgrTie, VtTie, ParserFnsTie, RestTie, DumpTie): Parser::feed / dispatch / mode tables, constants, reset lists, Parser::param / clear / collect and the Param methods, all of Terminal::execute (42 scalar control functions; print, rep, ich, dch, ech, ed, el, decaln, ctc, tbc, tab moves, sm, rm, decset, decrst as recorded primitive calls), 39 functions of line.rs / buffer.rs / tabs.rs / dirty_lines.rs, Buffer::resize with Reflow::next / reflow / logical_position / relative_position, Buffer::text, Charset::translate, TextUnwrapper, TextCollector::flush, the 13 dump functions (Vt / Terminal / Buffer / Pen / Parser dump, Color::sgr_params, Param Display, is_default), SgrOps::next, Terminal::sgr, Pen methods, Vt call skeletons",
-            "hand-modelled and tied by step-wise correspondence (testing) only: Line::chunks (pinned as text), Terminal::reflow / resize and the two screen switches (opaque whole-state steps in the execute tie), TextCollector's feed path",
+            "regenerated from the source on every run and tied by PROOF (Gen/*.v + Proofs/ParserTable, DispatchTable, TermTie, TermTieW, TermTieX, BufTie, SgrTie, VtTie, ParserFnsTie, RestTie, DumpTie, AccTie): Parser::feed / dispatch / mode tables, constants, reset lists, Parser::param / clear / collect and the Param methods, all of Terminal::execute (42 scalar control functions; print, rep, ich, dch, ech, ed, el, decaln, ctc, tbc, tab moves, sm, rm, decset, decrst, the two screen switches, Terminal::reflow / resize, save / restore cursor as recorded primitive calls), 39 functions of line.rs / buffer.rs / tabs.rs / dirty_lines.rs, Buffer::resize with Reflow::next / reflow / logical_position / relative_position, Buffer::text, Charset::translate, TextUnwrapper, TextCollector::flush, the 13 dump functions (Vt / Terminal / Buffer / Pen / Parser dump, Color::sgr_params, Param Display, is_default), SgrOps::next, Terminal::sgr, Pen methods, Vt call skeletons, the 45 public constructors and accessors (Vt::new, Builder, view / lines / line / text / cursor, Terminal::new, Line / Cell accessors, TextCollector::new / feed_str / resize)",
+            "hand-modelled and tied by step-wise correspondence (testing) only: the iterator Chunks::next behind Line::chunks (pinned as text), the iterator plumbing of Changes",
         ],
         "theorems": st.get("theorem_names", []),
         "proof_status": cfg.get("proof_status", ""),
